@@ -5,6 +5,7 @@ import (
 	"math/rand/v2"
 	"strings"
 
+	"github.com/hattya/go.sh/ast"
 	"github.com/hattya/go.sh/interp"
 	"github.com/hattya/go.sh/parser"
 
@@ -36,6 +37,16 @@ func c17Exec(c *core.Ctx, cs c17Case) {
 	got, _, gerr := parser.ParseCommands(env, "c17", cs.Src)
 	subs := mon.Substs.Load() - s0
 	want, _, werr := parser.ParseCommands(nil, "c17", cs.Plain)
+	if cs.Kind == "alias-lines" {
+		// a newline inside an alias value continues the parse: ONE call with the alias
+		// returns what successive calls return for the replaced text
+		want, werr = nil, nil
+		for rd := strings.NewReader(cs.Plain); rd.Len() > 0 && werr == nil; {
+			var cmds []ast.Command
+			cmds, _, werr = parser.ParseCommands(nil, "c17", rd)
+			want = append(want, cmds...)
+		}
+	}
 	c.Eval(1)
 	c.Count("kind/"+cs.Kind, 1)
 	c.Count("substitutions", int(subs))
@@ -146,6 +157,13 @@ func c17Gen(c *core.Ctx) {
 		{"outer x hi", map[string]string{"outer": "inner ", "inner": "echo hi", "x": "X", "hi": "NO"}, "echo hi X hi"},
 		{"outer", map[string]string{"outer": "inner ", "inner": "if x; then y hi; fi >hi", "hi": "NO"}, "if x; then y hi; fi >hi"},
 		{"o x", map[string]string{"o": "m ", "m": "i ", "i": "echo a b", "a": "NO", "b": "NO", "x": "X "}, "echo a b X"},
+		// a value that ends in a blank inside the word list of a for loop: the next word is examined there too
+		{"F p p; do echo $x; done", map[string]string{"F": "for x in ", "p": "b c"}, "for x in b c p; do echo $x; done"},
+		{"F p q", map[string]string{"F": "for x in ", "p": "1 2 ", "q": "3; do echo $x; done"}, "for x in 1 2 3; do echo $x; done"},
+		{"F p; do :; done", map[string]string{"F": "for x in a\t", "p": "b"}, "for x in a\tb; do :; done"},
+		{"for x in F p; do :; done", map[string]string{"F": "a ", "p": "b"}, "for x in F p; do :; done"},
+		{"W p; do :; done", map[string]string{"W": "while ", "p": "true"}, "while true; do :; done"},
+		{"I p; then :; fi", map[string]string{"I": "if ! ", "p": "true"}, "if ! true; then :; fi"},
 		// witnesses of open known findings (and their repaired neighbours)
 		{"a x) :;; esac", map[string]string{"a": "case x in ", "x": "y"}, "case x in y) :;; esac"},
 		{"a x) :;; esac", map[string]string{"a": "case x in ( ", "x": "y"}, "case x in ( y) :;; esac"},
@@ -167,6 +185,20 @@ func c17Gen(c *core.Ctx) {
 		{"foo $(foo)", map[string]string{"foo": "foo x"}, "foo x $(foo x)"},
 	} {
 		core.Do(c, c17Case{Src: d.src, Aliases: d.al, Plain: d.plain, Kind: "hand-written"}, c17Exec)
+	}
+	// alias values that hold newlines, whole commands and whole here-documents
+	for _, d := range []struct {
+		src   string
+		al    map[string]string
+		plain string
+	}{
+		{"x\n", map[string]string{"x": "a\nb"}, "a\nb\n"}, {"x\n", map[string]string{"x": "a\nb\nc d"}, "a\nb\nc d\n"},
+		{"x\n", map[string]string{"x": "cat <<E\nhi\nE\necho b"}, "cat <<E\nhi\nE\necho b\n"}, {"x y\n", map[string]string{"x": "cat <<E\nhi\nE\necho"}, "cat <<E\nhi\nE\necho y\n"},
+		{"x\n", map[string]string{"x": "cat <<E <<F\n1\nE\n2\nF\necho b; echo c"}, "cat <<E <<F\n1\nE\n2\nF\necho b; echo c\n"},
+		{"x\n", map[string]string{"x": "a &\nb |\nc"}, "a &\nb |\nc\n"}, {"x\n", map[string]string{"x": "if a\nthen b\nfi\nc"}, "if a\nthen b\nfi\nc\n"},
+		{"x z\n", map[string]string{"x": "a\ny ", "y": "b\nc ", "z": "d"}, "a\nb\nc d\n"},
+	} {
+		core.Do(c, c17Case{Src: d.src, Aliases: d.al, Plain: d.plain, Kind: "alias-lines"}, c17Exec)
 	}
 	// an alias after an assignment or redirection prefix: its value is further words of the same
 	// simple command, so "!", "{" and reserved words at its start are ordinary words there
